@@ -211,6 +211,8 @@ def gen_treasury(seed, n):
         for _ in range(nroutes):
             k = rnd.randrange(1, 4); ds = [rnd.choice(denoms) for _ in range(k + 1)]
             allowed.append([(rnd.randrange(1, 6), ds[i], ds[i + 1]) for i in range(k)])
+        if rnd.random() < 0.3:
+            allowed.insert(rnd.randrange(len(allowed) + 1), [])        # routes are not validated: an empty one is accepted
         t = T0 + rnd.randrange(10 ** 12)
         who = rnd.choice([admin, admin, c.users[1]])
         lines.append("tinst %d %s %s %s %s" % (t, hx(who), rnd.choice([hx(admin), "-"]), rnd.choice([hx(trader)] * 6 + ["-"] * 3 + [hx("bad address")]), routes_s(allowed)))
@@ -240,7 +242,7 @@ def gen_treasury(seed, n):
             lines.append("tx_abort")
         lines.append("texec %d %s updcfg %s %s" % (t + 9, hx(admin), hx(c.users[2]), routes_s(allowed[1:])))
         lines.append("tquery")
-        if allowed:
+        if allowed and allowed[0]:
             lines.append("texec %d %s swapin %s %s:%d %d" % (t + 10, hx(c.users[2]), route_s(allowed[0]), hx(allowed[0][0][1]), 7, 1))
             lines.append("texec %d %s swapin %s %s:%d %d" % (t + 10, hx(trader), route_s(allowed[0]), hx(allowed[0][0][1]), 7, 1))
         for name, ver in [("treasury", "0.4.19"), ("treasury", "0.4.20"), ("treasury", "0.4.21"), ("staking", "0.1.0"), ("treasury", "0.4"), ("treasury", "abc"), ("treasury", "0.3.99")]:
